@@ -31,6 +31,8 @@ func runC15(c *Ctx) {
 	over := clause("oversize frame", T(`^\(%rs\.recvLimit < `+length+`\)$`))
 	c.Reach(r1, rh, "an oversize frame closes the connection and ends the loop", ReachSpec{FromEdge: &over, Stop: `^call:invoke:net\.Conn\.Close\[%rs\.conn\]\(\)$`, Target: "EXIT", Want: false})
 	c.Reach(r1, rh, "nothing is read or delivered after an oversize frame", ReachSpec{FromEdge: &over, Target: `^call:io\.ReadFull\(|^select\{send:`, Want: false})
+	// the limit holds for control frames too: whatever is read, skipped or echoed according to the length field
+	c.Guard(r1, rh, "length-dependent read/skip/echo", `^call:io\.ReadFull\(%rs\.conn, makeslice|^call:io\.CopyN\(|^call:invoke:net\.Conn\.Write\[%rs\.conn\]`, 3, tooBig)
 	reserved := clause("frame type is none of 0,1,2", F(`^\(\(&local:header\[0\] & 7\) == 2\)$`))
 	c.Reach(r1, rh, "a reserved frame type closes the connection", ReachSpec{FromEdge: &reserved, Stop: `^call:invoke:net\.Conn\.Close\[%rs\.conn\]\(\)$`, Target: "EXIT", Want: false})
 	c.Reach(r1, rh, "nothing is delivered or read after a reserved frame type", ReachSpec{FromEdge: &reserved, Target: `^call:io\.|^select\{send:`, Want: false})
